@@ -133,7 +133,7 @@ theorem issued_imgs (ops : List Engine2.Op) : ∀ s, C03.issued (imgs s ops) = i
     | tick => simp only [imgs, img, C03.issued, issued2]; rw [ih]
     | setLeader b => simp only [imgs, img, C03.issued, issued2]; rw [ih]
 
-/-- **The closing statement, for runs without clock ticks**: operations without value frames on key records without value cells
+/-- **The closing statement** (runs WITH clock ticks): operations without value frames on key records without value cells, ticks on the leader
 (`RunOK`), connection-unique RequestIds (`hu`, the premise of C03 / C05). -/
 theorem sim_run (now aofTime : Nat) (ops : List Engine2.Op) (hok : RunOK (Engine2.DB.init now aofTime) ops)
     (hu : ∀ x, (issued2 ops).count x ≤ 1) :
@@ -162,7 +162,7 @@ theorem mem_imgs (ops : List Engine2.Op) : ∀ (s : Engine2.DB) (cmd : Engine.Cm
       exact ⟨d, List.mem_cons_of_mem _ hd⟩
 
 /-- **A stage-1 theorem about reachable states, transferred to the record-level model** (C01, mutual exclusion): in a run of LOCK /
-UNLOCK / role flips (premises `RunOK`) in which every LOCK for key `k` carries `Count = 0`, the key record of `k` never has two live
+UNLOCK / role flips / clock ticks on the leader (premises `RunOK`) in which every LOCK for key `k` carries `Count = 0`, the key record of `k` never has two live
 holder records — `currentLock` plus the live entries of the holder queue are at most one. -/
 theorem C01_mutex_transfers (now aofTime : Nat) (ops : List Engine2.Op) (hok : RunOK (Engine2.DB.init now aofTime) ops)
     (hid : ∀ x, (issued2 ops).count x ≤ 1) (k : Nat)
@@ -223,6 +223,24 @@ example : RunOK (Engine2.DB.init 100 0) demoT := by
     decide
 
 example : ∀ x ∈ issued2 demoT, (issued2 demoT).count x ≤ 1 := by decide
+
+/-- the hypotheses of `sim_tick` are jointly satisfiable at a state whose next tick fires a timeout: reachable, on the leader, with a
+stage-1 database `Equiv` to `abs` that satisfies `Inv1` (obtained from the simulation of the run so far) -/
+example : ∃ a : Engine.DB, Reachable2 (Engine2.run (Engine2.DB.init 100 0) [.lock tH none, .lock tW none, .tick]) ∧
+    (Engine2.run (Engine2.DB.init 100 0) [.lock tH none, .lock tW none, .tick]).leader = true ∧
+    Equiv (Engine2.abs (Engine2.run (Engine2.DB.init 100 0) [.lock tH none, .lock tW none, .tick])) a ∧ Inv1 a := by
+  have hok : RunOK (Engine2.DB.init 100 0) [.lock tH none, .lock tW none, .tick] := by
+    refine ⟨?_, ?_, ?_, trivial⟩
+    · show ((Engine2.DB.init 100 0).getKey tH.key).cell = none
+      decide
+    · show ((Engine2.run (Engine2.DB.init 100 0) [.lock tH none]).getKey tW.key).cell = none
+      decide
+    · show (Engine2.run (Engine2.DB.init 100 0) [.lock tH none, .lock tW none]).leader = true
+      decide
+  have hfr := C04.freshRun_of_unique 100 (imgs (Engine2.DB.init 100 0) [.lock tH none, .lock tW none, .tick]) (by rw [issued_imgs]; exact List.nodup_iff_count.mp (by decide))
+  obtain ⟨e, i⟩ := sim_run_from [.lock tH none, .lock tW none, .tick] (Engine2.DB.init 100 0) (Engine.DB.init 100) ⟨100, 0, [], rfl⟩ (abs_init 100 0)
+    (Inv1.init 100) hok hfr
+  exact ⟨_, ⟨100, 0, _, rfl⟩, by decide, e, i⟩
 
 /-- the second tick answers the queued request with TIMEOUT (8), the third ends the hold with EXPRIED (9); afterwards nothing is held -/
 example : (Engine2.step (Engine2.run (Engine2.DB.init 100 0) [.lock tH none, .lock tW none, .tick]) .tick).2.map (·.r.result) = [8] := by decide
